@@ -20,7 +20,7 @@ from pyvc.verify import contract
 META = {
     "residual": [
         "survival of whitespace and of the text through libxml2 serialise/parse (save/re-open) is only checked natively "
-        "(C04.native_strings, all strings <= 4 over 9 symbols at the four levels; never counted as proved)",
+        "(C04.native_strings, all strings <= 3 (thorough: 5) over 10 symbols incl. \\r plus splitter/normaliser look-alikes, at the four levels; never counted as proved)",
         "the number of breaks per assigned text is enumerated up to 3 (all kinds and positions); segments are symbolic",
     ],
     "trusted_base": ["str.split(sep) / re.split('\\n|\\v') return the maximal separator-free segments",
@@ -362,7 +362,7 @@ def _replay(model, rec):
     bad = [o for o in r["obligations"] if o["status"] == "refuted"]
     if bad:
         return {"confirmed": True, "witness_class": bad[0]["replay"]["witness_class"], "detail": bad[0]["replay"]["detail"]}
-    return {"confirmed": False, "detail": "all strings <= 4 over the 9-symbol alphabet behave at the four levels natively"}
+    return {"confirmed": False, "detail": "all strings <= 3 over the 10-symbol alphabet (and the look-alike list) behave at the four levels natively"}
 
 
 def _patterns(maxk):
@@ -518,13 +518,17 @@ def _native_strings(tier="quick", seed=0):
     from pptx.util import Emu
 
     t0 = _t.time()
-    alphabet = ["a", " ", "\n", "\v", "\t", "\x07", "&", "<", "\U0001F600"]
+    alphabet = ["a", " ", "\n", "\v", "\t", "\x07", "&", "<", "\U0001F600", "\r"]
     maxlen = 3 if tier == "quick" else 5
     strings = [""]
     for n in range(1, maxlen + 1):
         strings += ["".join(x) for x in itertools.product(alphabet, repeat=n)]
     # printable text that looks like an escape must stay as it is (only C0 controls are translated)
     strings += ["_x0041_", "see _x000D_ here", "_x005F_", "\x07_x0007_", "_x0007", "x0007_", "__x0009__", "_X000A_", "a_b", "_x12_", "_x00GG_", "]]>", "_x0041_\n_x0042_\v_"]
+    # characters that other splitters / normalisers treat specially (str.splitlines, strip, universal newlines): only \n and \v
+    # are breaks, and nothing is trimmed or folded
+    strings += ["a\r\nb", "\r\n", "a\n\rb", "a\r\n\r\nb", "a\r\vb", "a\x0cb", "a\x1cb", "a\x1db", "a\x1eb", "a\x85b", "a\u2028b", "a\u2029b", "a\u00a0", "\u00a0a",
+                "\ufeffa", "a\u200b", "  a  \n  b  ", "\ta\t", "a\n", "\na", "a\v", "\va", "A\u0130\u00df", "e\u0301", "\u00e9", "a" * 300 + "\n" + "b" * 300]
 
     def esc(s):
         return re.sub(r"([\x00-\x08\x0B-\x1F])", lambda m: "_x%04X_" % ord(m.group(1)), s)
